@@ -7,6 +7,7 @@ pub mod golden;
 pub mod harness;
 pub mod hostile;
 pub mod minimise;
+pub mod osprobe;
 pub mod models;
 pub mod prop;
 pub mod props;
